@@ -37,7 +37,7 @@ func VF_C14_LiveTransientFaults(nf int) {
 	w, err := OpenWriter(cfg)
 	vfAssert(err == nil && w != nil, "OpenWriter succeeds on an empty directory")
 	wd.dir.faults, wd.dir.faultBudgeted, wd.dir.faultsLeft = true, true, nf
-	steps := []vfStep{{0, 1, vfByte("payload")}, {0, 2, vfByte("payload")}, {0, 3, vfByte("payload")}}
+	steps := []vfStep{{op: 0, id: 1, payload: vfByte("payload")}, {op: 0, id: 2, payload: vfByte("payload")}, {op: 0, id: 3, payload: vfByte("payload")}}
 	failed := 0
 	for k, st := range steps {
 		if k == len(steps)-1 {
@@ -66,11 +66,15 @@ func VF_C14_LiveTransientFaults(nf int) {
 		}
 		r, rerr := w.Reader()
 		vfAssert(rerr == nil && r != nil, "a reader can be obtained during and after faults")
+		vfReaderBacked(r, "a reader obtained during or after faults")
 		vfAssert(vfSameContent(vfSortedContent(r), wd.states[wd.issued]), "readers answer according to the batches applied so far")
 		_ = r.Close()
 	}
 	vfAssert(wd.acked == wd.issued, "once the fault cleared the next acknowledgement covers every batch applied before")
 	vfAssert(failed <= wd.dir.faultsHit, "no more failed calls than failed directory operations")
 	vfAssert(w.Close() == nil, "Close succeeds")
+	for _, c := range wd.dir.closers {
+		vfAssert(c.closed == 1, "every item loaded from the directory is released exactly once, also when persists failed in between")
+	}
 	wd.crashAt(wd.cloneDir("", 0), "reopen after Close")
 }
